@@ -160,16 +160,11 @@ bool PyTreeSpec::FlattenIntoImpl(const py::handle& handle,
                         << " should return a 2- or 3-tuple, got " << num_out << ".";
                     throw std::runtime_error(oss.str());
                 }
-                node.arity = 0;
                 node.node_data = TupleGetItem(out, 1);
-                {
-                    auto children = thread_safe_cast<py::iterable>(TupleGetItem(out, 0));
-                    const scoped_critical_section cs{children};
-                    for (const py::handle& child : children) {
-                        ++node.arity;
-                        recurse(child);
-                    }
-                }
+                // NOTE: validate the whole result before descending into the children, so that all
+                // traversals report a malformed result in the same way.
+                const auto children = thread_safe_cast<py::tuple>(TupleGetItem(out, 0));
+                node.arity = TupleGetSize(children);
                 if (num_out == 3) [[likely]] {
                     const py::object node_entries = TupleGetItem(out, 2);
                     if (!node_entries.is_none()) [[likely]] {
@@ -184,6 +179,9 @@ bool PyTreeSpec::FlattenIntoImpl(const py::handle& handle,
                             throw std::runtime_error(oss.str());
                         }
                     }
+                }
+                for (ssize_t i = 0; i < node.arity; ++i) {
+                    recurse(TupleGetItem(children, i));
                 }
                 break;
             }
@@ -422,42 +420,31 @@ bool PyTreeSpec::FlattenIntoWithPathImpl(const py::handle& handle,
                         << " should return a 2- or 3-tuple, got " << num_out << ".";
                     throw std::runtime_error(oss.str());
                 }
-                node.arity = 0;
                 node.node_data = TupleGetItem(out, 1);
-                py::object node_entries;
+                // NOTE: validate the whole result before descending into the children, so that all
+                // traversals report a malformed result in the same way.
+                const auto children = thread_safe_cast<py::tuple>(TupleGetItem(out, 0));
+                node.arity = TupleGetSize(children);
                 if (num_out == 3) [[likely]] {
-                    node_entries = TupleGetItem(out, 2);
-                } else [[unlikely]] {
-                    node_entries = py::none();
-                }
-                if (node_entries.is_none()) [[unlikely]] {
-                    auto children = thread_safe_cast<py::iterable>(TupleGetItem(out, 0));
-                    const scoped_critical_section cs{children};
-                    for (const py::handle& child : children) {
-                        recurse(child, py::int_(node.arity++));
-                    }
-                } else [[likely]] {
-                    node.node_entries = thread_safe_cast<py::tuple>(node_entries);
-                    node.arity = TupleGetSize(node.node_entries);
-                    ssize_t num_children = 0;
-                    auto children = thread_safe_cast<py::iterable>(TupleGetItem(out, 0));
-                    const scoped_critical_section cs{children};
-                    for (const py::handle& child : children) {
-                        if (num_children >= node.arity) [[unlikely]] {
-                            throw std::runtime_error(
-                                "PyTree custom flatten function for type " +
-                                PyRepr(node.custom->type) +
-                                " returned inconsistent number of children and number of entries.");
+                    const py::object node_entries = TupleGetItem(out, 2);
+                    if (!node_entries.is_none()) [[likely]] {
+                        node.node_entries = thread_safe_cast<py::tuple>(node_entries);
+                        const ssize_t num_entries = TupleGetSize(node.node_entries);
+                        if (num_entries != node.arity) [[unlikely]] {
+                            std::ostringstream oss{};
+                            oss << "PyTree custom flatten function for type "
+                                << PyRepr(node.custom->type)
+                                << " returned inconsistent number of children (" << node.arity
+                                << ") and number of entries (" << num_entries << ").";
+                            throw std::runtime_error(oss.str());
                         }
-                        recurse(child, TupleGetItem(node.node_entries, num_children++));
                     }
-                    if (num_children != node.arity) [[unlikely]] {
-                        std::ostringstream oss{};
-                        oss << "PyTree custom flatten function for type "
-                            << PyRepr(node.custom->type)
-                            << " returned inconsistent number of children (" << num_children
-                            << ") and number of entries (" << node.arity << ").";
-                        throw std::runtime_error(oss.str());
+                }
+                for (ssize_t i = 0; i < node.arity; ++i) {
+                    if (node.node_entries) [[likely]] {
+                        recurse(TupleGetItem(children, i), TupleGetItem(node.node_entries, i));
+                    } else [[unlikely]] {
+                        recurse(TupleGetItem(children, i), py::int_(i));
                     }
                 }
                 break;
